@@ -44,7 +44,8 @@ def _java(args: list[str], cwd: Path, timeout: int, env: dict | None = None, hea
           props: list[str] | None = None, light: bool = True) -> tuple[int, str, float]:
     # light: short runs (most of ours) are dominated by JIT + GC threads; serial GC and C1 only cut CPU by 3x
     gc = ["-XX:+UseSerialGC", "-XX:TieredStopAtLevel=1"] if light else ["-XX:+UseParallelGC", "-XX:ParallelGCThreads=4"]
-    cmd = ["java"] + gc + [f"-Xmx{heap}"] + (props or []) + ["-cp", JAR] + args
+    # TLC's own temporary directories (tlc-<n>) go into the staged run directory and disappear with the scratch
+    cmd = ["java"] + gc + [f"-Xmx{heap}", f"-Djava.io.tmpdir={cwd}"] + (props or []) + ["-cp", JAR] + args
     e = dict(os.environ)
     e.pop("JAVA_TOOL_OPTIONS", None)
     e.setdefault("PASS", "none")       # specs guard their generate/judge passes with IOEnv.PASS (TLC evaluates every constant at start-up)
